@@ -38,7 +38,7 @@ const (
 //   * Functions for querying OpenType Layout features in the font face.
 //   **/
 
-const maxNestingLevel = 6
+const maxNestingLevel = 64 // as HarfBuzz (the work is bounded by maxOps)
 
 func (c *otApplyContext) applyString(proxy otProxyMeta, accel *otLayoutLookupAccelerator) {
 	buffer := c.buffer
